@@ -1,9 +1,15 @@
 package main
 
+import (
+	"strings"
+
+	"golang.org/x/tools/go/ssa"
+)
+
 func init() { register("C17", checkC17) }
 
 func checkC17(r *Run) {
-	r.Explain = "Decides the 'errors, not crashes' half of C17 as effect and taint properties of internal/cbor: A17a every panic raised by the decoder carries an error (so the recover handler's r.(error) cannot itself panic); A17b every decoder entry point that is reachable from the library's public surface (ConsoleWriter, syslog, journald, the exported decode helpers) and from which a panic is reachable runs under a deferred recover that dominates the panicking calls; A23 integers derived from input bytes (dataflow taint from ReadByte/Peek through arithmetic, conversions, helper returns and slice elements) never size an allocation, bound a slice or index an object without a dominating range check or a provable interval (byte>>4 into a 16-entry table), no input-derived divisor, no unchecked type assertion, no buffer growth sized by input; recursion consumes at least one input byte before every recursive descent, so nesting depth and memory stay proportional to the input; READERR every failing read of the input (Peek/ReadByte/CopyN … on the *bufio.Reader) has its error tested and the error edge only reaches panics — the decoder never carries on after a failed read or turns it into a normal return, except the between-events EOF probe (so a truncated trailing event is reported as an error); OUTDIRECT the stream entry point hands the per-event decoder the caller's writer itself (or a buffered writer whose Flush is deferred), so the events decoded before a truncated or malformed one have reached the writer when the error is returned."
+	r.Explain = "Decides the 'errors, not crashes' half of C17 as effect and taint properties of internal/cbor: A17a every panic raised by the decoder carries an error (so the recover handler's r.(error) cannot itself panic); A17b every decoder entry point that is reachable from the library's public surface (ConsoleWriter, syslog, journald, the exported decode helpers) and from which a panic is reachable runs under a deferred recover that dominates the panicking calls; A23 integers derived from input bytes (dataflow taint from ReadByte/Peek through arithmetic, conversions, helper returns and slice elements) never size an allocation, bound a slice or index an object without a dominating range check or a provable interval (byte>>4 into a 16-entry table), no input-derived divisor, no unchecked type assertion, no buffer growth sized by input; recursion consumes at least one input byte before every recursive descent, so nesting depth and memory stay proportional to the input; READERR every failing read of the input (Peek/ReadByte/CopyN … on the *bufio.Reader) has its error tested and the error edge only reaches panics — the decoder never carries on after a failed read or turns it into a normal return, except the between-events EOF probe (so a truncated trailing event is reported as an error); OUTDIRECT the stream entry point hands the per-event decoder the caller's writer itself (or a buffered writer whose Flush is deferred), so the events decoded before a truncated or malformed one have reached the writer when the error is returned; A23c in the writers that consume the decoded event (package journald, syslog.go) every element access and slicing of a string or byte slice is covered by a dominating length test, a range loop over the same object or a constant object, so a well-formed event with an empty key or value cannot become an index-out-of-range panic (ConsoleWriter is not judged by A23c: its field ordering indexes through sort.Search/sort.Slice callbacks, which this rule cannot bound)."
 	r.NotDec = "The exact bytes produced for a truncated tail, and that every whole event of a prefix decodes exactly as in the full stream (value-level; structurally the decoder writes event k before touching event k+1). Runtime panics from operations on non-input-derived operands are not obligations of A23."
 	r.Assume = []string{"standard-library callees receiving input-derived integers (listed in the evidence) do not panic on any value"}
 	for _, cfg := range []string{"J", "B"} {
@@ -15,6 +21,13 @@ func checkC17(r *Run) {
 		ruleA23(r, p)
 		ruleReadErr(r, p)
 		ruleOutDirect(r, p)
+		var cons []*ssa.Function
+		for _, f := range p.ModFns {
+			if pkgRel(f) == "journald" || (pkgRel(f) == "" && strings.HasPrefix(p.Pos(f.Pos()), "syslog.go:")) {
+				cons = append(cons, f)
+			}
+		}
+		ruleConsumerBounds(r, p, "A23c", cons)
 	}
 	r.Floor("A17a", 30)
 	r.Floor("A17b", 3)
